@@ -67,6 +67,11 @@ inductive LitDb where
   | mysql | postgres | plain
 deriving DecidableEq, Repr
 
+/-- what the link-table ownership test compares: `__name__` or `sqlmeta.table` -/
+inductive LinkKey where
+  | className | tableName
+deriving DecidableEq, Repr
+
 /-- the conditions of `_extraSQL`, in source order -/
 inductive Extra where
   | notNull     -- `if self.notNone or self.alternateID`
